@@ -32,6 +32,38 @@ def rand_orth(rng, n):
     return numpy.linalg.solve(I + S, I - S)
 
 
+def series_mul(A, B, D):
+    C = [numpy.zeros_like(A[0] @ B[0]) for _ in range(D)]
+    for d in range(D):
+        for c in range(d + 1):
+            C[d] = C[d] + A[c] @ B[d - c]
+    return C
+
+
+def split_at_fn(rng, n, D, s):
+    """symmetric A(t) = Q(t) Lambda(t) Q(t)^T whose two smallest eigenvalue polynomials agree in orders < s and differ at order s"""
+    Q0 = rand_orth(rng, n)
+    S = numpy.zeros((n, n))
+    for i in range(n):
+        for j in range(i + 1, n):
+            S[i, j] = rng.randint(-2, 2) / 4; S[j, i] = -S[i, j]
+    geo = [numpy.linalg.matrix_power(-S, k) for k in range(D)]
+    IS = ([numpy.eye(n), -S] + [numpy.zeros((n, n))] * D)[:D]
+    Qt = [Q0 @ q for q in series_mul(IS, geo, D)]
+    base = sorted(rng.sample([-3, -1, 1, 3, 5], n - 1))
+    Lam = [numpy.diag(sorted(base + [base[0]]))]
+    for d in range(1, D):
+        L = numpy.diag([rng.randint(-4, 4) / 4 for _ in range(n)])
+        if d < s:
+            L[1, 1] = L[0, 0]
+        elif d == s:
+            L[1, 1] = L[0, 0] + rng.choice([1.0, 1.5, -1.0])
+        Lam.append(L)
+    A = series_mul(series_mul(Qt, Lam, D), [q.T for q in Qt], D)
+    A = numpy.array(A)
+    return 0.5 * (A + A.transpose((0, 2, 1)))
+
+
 def tpose(objs):
     return [a.T for a in objs]
 
@@ -43,6 +75,35 @@ def const_obj(M, D):
 def struct_residual(data, mask):
     """largest |entry| of data where mask (N x M bool) is True, over all d, p"""
     return float(numpy.max(numpy.abs(data[:, :, mask]))) if mask.any() else 0.0
+
+
+def check_eigh(ap, rep, viol, Ad, meta, spec, split):
+    UTPM = ap.UTPM
+    D, P, n = Ad.shape[0], Ad.shape[1], Ad.shape[2]
+    try:
+        l, Q = ap.eigh(UTPM(Ad.copy()))
+        ld, Qd = numpy.asarray(l.data), numpy.asarray(Q.data)
+        Ao, Qo = obj_mats(Ad), obj_mats(Qd)
+        lo = obj_mats(ld)
+        etol = 1e-9 * 4 ** D * scale_of(Ad) ** 2
+        bad = None
+        for p in range(P):
+            Lam = numpy.empty((n, n), dtype=object)
+            for i in range(n):
+                for j in range(n):
+                    Lam[i, j] = lo[p][i] if i == j else PS.const(0, D)
+            r1 = ps_residual([numpy.dot(Ao[p], Qo[p]) - numpy.dot(Qo[p], Lam)])
+            r2 = ps_residual([numpy.dot(Qo[p].T, Qo[p]) - const_obj(numpy.eye(n), D)])
+            if float(r1) > etol or float(r2) > etol:
+                bad = 'residuals AQ-Q diag(l) %.2g, Q^TQ-I %.2g' % (float(r1), float(r2)); break
+            if numpy.any(numpy.diff(ld[0, p]) < -1e-9):
+                bad = 'lambda_0 is not ascending'; break
+            if not numpy.allclose(ld[0, p], numpy.linalg.eigh(Ad[0, p])[0], atol=1e-9):
+                bad = 'lambda_0 differs from numpy.linalg.eigh'; break
+        if bad:
+            viol('eigh:%s' % spec, 'eigh (%s eigenvalues%s, n=%d, D=%d): %s' % (spec, ', splitting at order %d' % split if split else '', n, D, bad), meta)
+    except Exception as e:
+        viol('eigh:%s:exception:%s' % (spec, type(e).__name__), 'eigh (%s, n=%d, D=%d) raises %r' % (spec, n, D, e), meta, exc=repr(e))
 
 
 def main(tier, seed):
@@ -61,7 +122,7 @@ def main(tier, seed):
     terms, metas = [], []
     N = 14 if tier == 'quick' else 200
     Dmax = 4 if tier == 'quick' else 6
-    TOL = 2e-8
+    TOL = 1e-10
 
     def case(kind, meta, nontriv):
         rep.count('kind', kind)
@@ -78,7 +139,7 @@ def main(tier, seed):
 
     for _ in range(N):
         D = rng.randint(1, Dmax); P = rng.randint(1, 2)
-        tol = TOL * 8 ** D
+        tol = TOL * 4 ** D          # observed residuals are ~1e-14; a wrong coefficient is O(1e-3) or more
         # ================================================================= QR (reduced)
         for shape_kind in ('square', 'tall', 'wide'):
             n = rng.randint(1, 4)
@@ -207,11 +268,21 @@ def main(tier, seed):
         except Exception as e:
             viol('lu:exception:%s' % type(e).__name__, 'lu (n=%d) raises %r' % (n, e), meta, exc=repr(e))
         # ================================================================= eigh: distinct / exactly repeated eigenvalues
-        for spec in ('distinct', 'repeated'):
+        for spec in ('distinct', 'repeated', 'split-late'):
             n = rng.randint(2, 4)
             Ad = hi(rng, D, P, n, n)
             Ad = 0.5 * (Ad + Ad.transpose((0, 1, 3, 2)))
             split_at = None
+            if spec == 'split-late':
+                # repeated base eigenvalues that stay repeated up to order s-1 and split at order s, for degrees up to 7
+                De = rng.randint(3, 7); s_ = rng.randint(1, De - 1); n = rng.randint(2, 3); Pe = rng.randint(1, 2)
+                Ad = numpy.zeros((De, Pe, n, n))
+                for p in range(Pe):
+                    Ad[:, p] = split_at_fn(rng, n, De, s_)
+                meta = dict(op='eigh', spectrum=spec, split_at=s_, n=n, D=De, P=Pe, A=Ad.tolist())
+                case('eigh:' + spec, meta, True)
+                check_eigh(algopy, rep, viol, Ad, meta, spec, s_)
+                continue
             for p in range(P):
                 Q0 = rand_orth(rng, n)
                 if spec == 'distinct':
@@ -234,7 +305,7 @@ def main(tier, seed):
                 ld, Qd = numpy.asarray(l.data), numpy.asarray(Q.data)
                 Ao, Qo = obj_mats(Ad), obj_mats(Qd)
                 lo = obj_mats(ld)
-                etol = tol * 64 ** D * scale_of(Ad) ** 2
+                etol = 1e-9 * 4 ** D * scale_of(Ad) ** 2
                 bad = None
                 for p in range(P):
                     Lam = numpy.empty((n, n), dtype=object)
@@ -297,7 +368,7 @@ def main(tier, seed):
             Ud, sd, Vd = numpy.asarray(U_.data), numpy.asarray(s.data), numpy.asarray(V.data)
             Ao, Uo, Vo, so = obj_mats(Ad), obj_mats(Ud), obj_mats(Vd), obj_mats(sd)
             K_ = min(M_, N_)
-            stol = tol * 256 ** Ds * scale_of(Ad) ** 2
+            stol = 1e-8 * 4 ** Ds * scale_of(Ad) ** 2
             bad = None
             for p in range(P):
                 Sg = numpy.empty((M_, N_), dtype=object)
